@@ -115,14 +115,30 @@ def build_images(desc, plan=0, version="1.2"):
     im.header.version = version
     fill_compose(im.compose, desc["compose"])
     adds = []
-    for entry in desc["images"]:
-        shared = make_image(im, entry["rec"]) if entry.get("share_object", True) else None
+    late = []
+    for n, entry in enumerate(desc["images"]):
+        # some callers file the (still blank) object first and describe it afterwards: where an image is filed does not depend on
+        # what it says at that moment
+        fill_late = bool(rnd) and (plan + n) % 3 == 0
+
+        def one(entry=entry, fill_late=fill_late):
+            if not fill_late:
+                return make_image(im, entry["rec"])
+            from productmd.images import Image
+            img = Image(im)
+            late.append((img, entry["rec"]))
+            return img
+        shared = one() if entry.get("share_object", True) else None
         for variant, arch in entry["cells"]:
-            adds.append((variant, arch, shared if shared is not None else make_image(im, entry["rec"])))
+            adds.append((variant, arch, shared if shared is not None else one()))
     if rnd:
         rnd.shuffle(adds)
     for variant, arch, img in adds:
         im.add(variant, arch, img)
+    for img, rec in late:
+        for k in ATTRS:
+            v = rec[k]
+            setattr(img, k, type(v)(v) if isinstance(v, (dict, list)) else v)
     if desc.get("refile"):
         # filing an object where it already is changes nothing (a unified image filed under its own variant and under each of its
         # additional variants, one of which is its own)
